@@ -164,6 +164,34 @@ func checkWalkState(r *evid.Run, d *DocState, concs []*tok.Conc) {
 					break
 				}
 			}
+			// overlapping walks of ONE tree: a walk started from inside a visit of another walk (every position of
+			// the outer walk in turn over the states, both forms, the inner one complete or left early), and two pull
+			// iterators advanced in turn.  Every one of them delivers what a walk alone delivers.
+			if len(wantR) > 0 {
+				at := 1 + (d.N+i)%len(wantR)
+				ib := 0
+				if d.N%3 == 1 {
+					ib = 1 + d.N%len(wantR)
+				}
+				outer, inner, o := real.WalkNested(reused, at, ib, d.N%2 == 1, bo...)
+				r.Count("real_calls", 1)
+				wantIn := wantR
+				if ib > 0 {
+					wantIn = wantR[:ib]
+				}
+				if o.Class() != "ok" || !sameWalk(outer, wantR) || !sameWalk(inner, wantIn) {
+					r.Mismatch("walk-nested:records", fmt.Sprintf("tree#%d of doc=%q conc=%s: visit %d walks the same tree again (iterator outer walk=%v, inner left after %d): want outer=%v inner=%v got outer=%v inner=%v/%v %s",
+						i, doc, c.Name, at, d.N%2 == 1, ib, wantR, wantIn, outer, inner, o.Err, firstLine(o.Panic)),
+						walkReplay{Doc: d.Doc, Conc: c, Bytes: doc, Route: "walk-nested", StopAt: at, Want: wantR, Got: outer, Err: o.ErrString()})
+				}
+				a, b, o := real.WalkTwoPull(reused, (d.N/2)%(len(wantR)+1), bo...)
+				r.Count("real_calls", 1)
+				if o.Class() != "ok" || !sameWalk(a, wantR) || !sameWalk(b, wantR) {
+					r.Mismatch("walk-two-iterators:records", fmt.Sprintf("tree#%d of doc=%q conc=%s: two pull iterators advanced in turn: want=%v got first=%v second=%v/%v %s",
+						i, doc, c.Name, wantR, a, b, o.Err, firstLine(o.Panic)),
+						walkReplay{Doc: d.Doc, Conc: c, Bytes: doc, Route: "walk-two-iterators", Want: wantR, Got: a, Err: o.ErrString()})
+				}
+			}
 		}
 		apiMu.Unlock()
 	}
